@@ -138,6 +138,153 @@ def moreOf : Option Nat → HasMore
   | some 0 => .no
   | some n => .yes n
 
+/-- a thread at an op boundary takes its next op (`call` step); the flag says whether the protocol machine steps too -/
+def callStep (s : ISrc) (t : Nat) (c : FCfg) (x : DThread) (o : SOp) (rest : List SOp) : FCfg × List Ev × Bool :=
+  let x := { x with todo := rest, q := 0 }
+  let callEv := Ev.call o
+  let die := fun (cls : String) => (setD c t { x with dead := true }, [callEv, Ev.panic cls], false)
+  match o.op with
+  | .bufnew n =>
+    if n = 0 then die "chunksize"
+    else
+      let old := match x.buf with | some b => somes b | none => []
+      (setD { c with dr := c.dr ++ (if s.owning then old else []) } t { x with buf := some (List.replicate n none) },
+        [callEv] ++ dropEvs s old ++ [.ret .unit], false)
+  | .bufdrop =>
+    let old := match x.buf with | some b => somes b | none => []
+    (setD { c with dr := c.dr ++ (if s.owning then old else []) } t { x with buf := none },
+      [callEv] ++ dropEvs s old ++ [.ret .unit], false)
+  | .chunk 0 _ => (setD c t x, [callEv, .ret .fin], false)
+  | .len | .hasmore => (setD c t { x with cur := some o.op }, [callEv], false)
+  | .get _ | .clone _ => die "unsupported"
+  | .bufnext _ =>
+    match x.buf with
+    | none => die "nobuf"
+    | some _ => (setD c t { x with cur := some o.op }, [callEv], true)
+  | op =>
+    match loopParams op with
+    | some (n, _, _, _) =>
+      if n = 0 then die "chunksize"
+      else
+        let x := { x with cur := some op, visits := 0, sum := 0,
+                          lbuf := if n = 1 then none else some (List.replicate n none) }
+        (setD c t x, [callEv], true)
+    | none => (setD c t { x with cur := some op }, [callEv], true)
+
+/-- `try_get_len` / `has_more`: up to two loads, no protocol step -/
+def queryStep (s : ISrc) (t : Nat) (c : FCfg) (x : DThread) (op : Op) : FCfg × List Ev × Bool :=
+  let fin := fun (o : Option Nat) =>
+    if op = .len then Ev.ret (.len o) else Ev.ret (.more (moreOf o))
+  if x.q = 0 then
+    let ev := Ev.ld .C .seqcst (if c.core.C then 1 else 0)
+    if c.core.C then (setD c t { x with cur := none }, [ev, fin (some 0)], false)
+    else match s.initialLen with
+      | none => (setD c t { x with cur := none }, [ev, fin none], false)
+      | some _ => (setD c t { x with q := 1 }, [ev], false)
+  else
+    let ev := Ev.ld .R .acquire c.core.R
+    (setD c t { x with cur := none, q := 0 }, [ev, fin (lenOut s.initialLen false c.core.R)], false)
+
+/-- effects, outside the protocol state, of the wrapped `next()` returning (pc `ins`) and of the unwind guard (pc `unw`):
+a buffered pull writes the element into its buffer slot (destroying a stale one), a panic destroys a partly collected
+`fetch_n` vector / a loop-owned buffer. Last component: the op ended by a panic. -/
+def insFx (s : ISrc) (c : FCfg) (x : DThread) (pcOld : Pc) (isLoopOp : Bool) (evs : List Ev) : FCfg × DThread × List Ev × Bool :=
+  match pcOld with
+  | .ins r _ acc =>
+    match s.fn c.core.P with
+    | .some v =>
+      match r with
+      | .buffered _ _ =>
+        let i := acc.length
+        let b := if isLoopOp then x.lbuf else x.buf
+        match b with
+        | some l =>
+          let old := match l.getD i none with | some o => [o] | none => []
+          let l' := setSlot l i (some v)
+          let x := if isLoopOp then { x with lbuf := some l' } else { x with buf := some l' }
+          ({ c with dr := c.dr ++ (if s.owning then old else []) }, x, evs ++ dropEvs s old, false)
+        | none => (c, x, evs, false)
+      | _ => (c, x, evs, false)
+    | .none => (c, x, evs, false)
+    | .panic =>
+      -- unwinding starts: a partly collected `fetch_n` Vec drops its elements first (innermost frame);
+      -- then the unwind guard's store is the thread's next scheduling point
+      let dropped : List Nat :=
+        match r with
+        | .chunk _ => acc
+        | _ => []
+      ({ c with dr := c.dr ++ (if s.owning then dropped else []) }, x, evs ++ dropEvs s dropped, false)
+  | .unw _ _ =>
+    -- the guard has stored `completed`; unwinding continues: a loop-owned buffer is dropped, the op ends
+    let dropped : List Nat :=
+      if isLoopOp then (match x.lbuf with | some l => somes l | none => []) else []
+    ({ c with dr := c.dr ++ (if s.owning then dropped else []) },
+      { x with dead := true, lbuf := none }, evs ++ dropEvs s dropped ++ [Ev.panic "probe"], true)
+  | _ => (c, x, evs, false)
+
+/-- a request of the protocol machine returned `o` to the op `op`: what the caller / the closure does with it -/
+def retFx (s : ISrc) (t : Nat) (c : FCfg) (x : DThread) (op : Op) (o : POut) (evs : List Ev) : FCfg × List Ev × Bool :=
+  match op with
+  | .next | .nextv =>
+    match o with
+    | .item b v =>
+      let out := if op = .next then Out.item b v else Out.value v
+      (setD { c with mv := c.mv ++ [v] } t { x with cur := none }, evs ++ cloneEvs s [v] ++ [.ret out], true)
+    | _ => (setD c t { x with cur := none }, evs ++ [.ret .fin], true)
+  | .chunk _ kk =>
+    match o with
+    | .chunk b vals =>
+      let a := vals.length
+      let j := takeCount kk a
+      let sk := kk.skipped a
+      let skipped := vals.take sk
+      let taken := (vals.take j).drop sk
+      let rest := vals.drop j
+      (setD { c with mv := c.mv ++ taken, dr := c.dr ++ (if s.owning then skipped ++ rest else []) } t { x with cur := none },
+        evs ++ skipEvs s skipped ++ cloneEvs s taken ++ dropEvs s rest ++ [.ret (.chunk b a (a - j) taken)], true)
+    | _ => (setD c t { x with cur := none }, evs ++ [.ret .fin], true)
+  | .bufnext kk =>
+    match o with
+    | .chunk b vals =>
+      let a := vals.length
+      let j := takeCount kk a
+      let sk := kk.skipped a
+      let skipped := vals.take sk
+      let taken := (vals.take j).drop sk
+      -- consumed slots become `None`; the others stay in the buffer
+      let buf' := x.buf.map fun l => (List.replicate j none) ++ l.drop j
+      (setD { c with mv := c.mv ++ taken, dr := c.dr ++ (if s.owning then skipped else []) } t { x with cur := none, buf := buf' },
+        evs ++ skipEvs s skipped ++ cloneEvs s taken ++ [.ret (.chunk b a (a - j) taken)], true)
+    | _ => (setD c t { x with cur := none }, evs ++ [.ret .fin], true)
+  | .skip => (setD c t { x with cur := none }, evs ++ [.ret .unit], true)
+  | _ =>
+    match loopParams op with
+    | none => (setD c t { x with cur := none }, evs, true)
+    | some (_, withIdx, panicAt, isFold) =>
+      let pairs : List (Nat × Nat) :=
+        match o with
+        | .item b v => [(b, v)]
+        | .chunk b vals => (List.range vals.length).zip vals |>.map fun (i, v) => (b + i, v)
+        | _ => []
+      match o with
+      | .fin =>
+        let out := if isFold then Out.fold x.sum else Out.done
+        (setD c t { x with cur := none, lbuf := none }, evs ++ [.ret out], true)
+      | _ =>
+        let (vevs, visits', sum', panicked) := visitAll s withIdx panicAt pairs x.visits x.sum []
+        match panicked with
+        | none =>
+          let lbuf' := x.lbuf.map fun l => (List.replicate pairs.length none) ++ l.drop pairs.length
+          (setD { c with mv := c.mv ++ pairs.map (·.2) } t { x with visits := visits', sum := sum', lbuf := lbuf' },
+            evs ++ vevs, true)
+        | some restLen =>
+          let nv := pairs.length - restLen
+          let taken := (pairs.take nv).map (·.2)
+          let rest := (pairs.drop nv).map (·.2)
+          (setD { c with mv := c.mv ++ taken, dr := c.dr ++ (if s.owning then rest else []) } t
+              { x with dead := true, lbuf := none },
+            evs ++ vevs ++ dropEvs s rest ++ [.panic "closure"], true)
+
 /-- One step of thread `t`, protocol state excluded: the deco state, the events, and whether the protocol
 machine makes its step (`core'` is that next protocol state, for reading only). -/
 def stepAux (s : ISrc) (t : Nat) (c : FCfg) (core' : Cfg) : FCfg × List Ev × Bool :=
@@ -147,157 +294,21 @@ def stepAux (s : ISrc) (t : Nat) (c : FCfg) (core' : Cfg) : FCfg × List Ev × B
   | none =>
     match x.todo with
     | [] => (c, [], false)
-    | o :: rest =>
-      let x := { x with todo := rest, q := 0 }
-      let callEv := Ev.call o
-      let die := fun (cls : String) => (setD c t { x with dead := true }, [callEv, Ev.panic cls], false)
-      match o.op with
-      | .bufnew n =>
-        if n = 0 then die "chunksize"
-        else
-          let old := match x.buf with | some b => somes b | none => []
-          (setD { c with dr := c.dr ++ (if s.owning then old else []) } t { x with buf := some (List.replicate n none) },
-            [callEv] ++ dropEvs s old ++ [.ret .unit], false)
-      | .bufdrop =>
-        let old := match x.buf with | some b => somes b | none => []
-        (setD { c with dr := c.dr ++ (if s.owning then old else []) } t { x with buf := none },
-          [callEv] ++ dropEvs s old ++ [.ret .unit], false)
-      | .chunk 0 _ => (setD c t x, [callEv, .ret .fin], false)
-      | .len | .hasmore => (setD c t { x with cur := some o.op }, [callEv], false)
-      | .get _ | .clone _ => die "unsupported"
-      | .bufnext _ =>
-        match x.buf with
-        | none => die "nobuf"
-        | some _ => (setD c t { x with cur := some o.op }, [callEv], true)
-      | op =>
-        match loopParams op with
-        | some (n, _, _, _) =>
-          if n = 0 then die "chunksize"
-          else
-            let x := { x with cur := some op, visits := 0, sum := 0,
-                              lbuf := if n = 1 then none else some (List.replicate n none) }
-            (setD c t x, [callEv], true)
-        | none => (setD c t { x with cur := some op }, [callEv], true)
+    | o :: rest => callStep s t c x o rest
   | some op =>
     match op with
-    | .len | .hasmore =>
-      let fin := fun (o : Option Nat) =>
-        if op = .len then Ev.ret (.len o) else Ev.ret (.more (moreOf o))
-      if x.q = 0 then
-        let ev := Ev.ld .C .seqcst (if c.core.C then 1 else 0)
-        if c.core.C then (setD c t { x with cur := none }, [ev, fin (some 0)], false)
-        else match s.initialLen with
-          | none => (setD c t { x with cur := none }, [ev, fin none], false)
-          | some _ => (setD c t { x with q := 1 }, [ev], false)
-      else
-        let ev := Ev.ld .R .acquire c.core.R
-        (setD c t { x with cur := none, q := 0 }, [ev, fin (lenOut s.initialLen false c.core.R)], false)
+    | .len | .hasmore => queryStep s t c x op
     | _ =>
       -- a protocol step
       let pcOld := (c.core.th t).pc
       let evs : List Ev := match emit s.fn t c.core with | some e => [e] | none => []
       let nOuts := (c.core.th t).outs.length
       let newOut : Option POut := ((core'.th t).outs.drop nOuts).head?
-      -- which buffer does a buffered request fill?
-      let isLoopOp := (loopParams op).isSome
-      -- effects of the wrapped `next()` returning
-      let (c, x, evs, died) : FCfg × DThread × List Ev × Bool :=
-        match pcOld with
-        | .ins r _ acc =>
-          match s.fn c.core.P with
-          | .some v =>
-            match r with
-            | .buffered _ _ =>
-              let i := acc.length
-              let b := if isLoopOp then x.lbuf else x.buf
-              match b with
-              | some l =>
-                let old := match l.getD i none with | some o => [o] | none => []
-                let l' := setSlot l i (some v)
-                let x := if isLoopOp then { x with lbuf := some l' } else { x with buf := some l' }
-                ({ c with dr := c.dr ++ (if s.owning then old else []) }, x, evs ++ dropEvs s old, false)
-              | none => (c, x, evs, false)
-            | _ => (c, x, evs, false)
-          | .none => (c, x, evs, false)
-          | .panic =>
-            -- unwinding starts: a partly collected `fetch_n` Vec drops its elements first (innermost frame);
-            -- then the unwind guard's store is the thread's next scheduling point
-            let dropped : List Nat :=
-              match r with
-              | .chunk _ => acc
-              | _ => []
-            ({ c with dr := c.dr ++ (if s.owning then dropped else []) }, x, evs ++ dropEvs s dropped, false)
-        | .unw _ _ =>
-          -- the guard has stored `completed`; unwinding continues: a loop-owned buffer is dropped, the op ends
-          let dropped : List Nat :=
-            if isLoopOp then (match x.lbuf with | some l => somes l | none => []) else []
-          ({ c with dr := c.dr ++ (if s.owning then dropped else []) },
-            { x with dead := true, lbuf := none }, evs ++ dropEvs s dropped ++ [Ev.panic "probe"], true)
-        | _ => (c, x, evs, false)
-      if died then (setD c t x, evs, true) else
+      let r := insFx s c x pcOld (loopParams op).isSome evs
+      if r.2.2.2 then (setD r.1 t r.2.1, r.2.2.1, true) else
       match newOut with
-      | none => (setD c t x, evs, true)
-      | some o =>
-        match op with
-        | .next | .nextv =>
-          match o with
-          | .item b v =>
-            let out := if op = .next then Out.item b v else Out.value v
-            (setD { c with mv := c.mv ++ [v] } t { x with cur := none }, evs ++ cloneEvs s [v] ++ [.ret out], true)
-          | _ => (setD c t { x with cur := none }, evs ++ [.ret .fin], true)
-        | .chunk _ kk =>
-          match o with
-          | .chunk b vals =>
-            let a := vals.length
-            let j := takeCount kk a
-            let sk := kk.skipped a
-            let skipped := vals.take sk
-            let taken := (vals.take j).drop sk
-            let rest := vals.drop j
-            (setD { c with mv := c.mv ++ taken, dr := c.dr ++ (if s.owning then skipped ++ rest else []) } t { x with cur := none },
-              evs ++ skipEvs s skipped ++ cloneEvs s taken ++ dropEvs s rest ++ [.ret (.chunk b a (a - j) taken)], true)
-          | _ => (setD c t { x with cur := none }, evs ++ [.ret .fin], true)
-        | .bufnext kk =>
-          match o with
-          | .chunk b vals =>
-            let a := vals.length
-            let j := takeCount kk a
-            let sk := kk.skipped a
-            let skipped := vals.take sk
-            let taken := (vals.take j).drop sk
-            -- consumed slots become `None`; the others stay in the buffer
-            let buf' := x.buf.map fun l => (List.replicate j none) ++ l.drop j
-            (setD { c with mv := c.mv ++ taken, dr := c.dr ++ (if s.owning then skipped else []) } t { x with cur := none, buf := buf' },
-              evs ++ skipEvs s skipped ++ cloneEvs s taken ++ [.ret (.chunk b a (a - j) taken)], true)
-          | _ => (setD c t { x with cur := none }, evs ++ [.ret .fin], true)
-        | .skip => (setD c t { x with cur := none }, evs ++ [.ret .unit], true)
-        | _ =>
-          match loopParams op with
-          | none => (setD c t { x with cur := none }, evs, true)
-          | some (_, withIdx, panicAt, isFold) =>
-            let pairs : List (Nat × Nat) :=
-              match o with
-              | .item b v => [(b, v)]
-              | .chunk b vals => (List.range vals.length).zip vals |>.map fun (i, v) => (b + i, v)
-              | _ => []
-            match o with
-            | .fin =>
-              let out := if isFold then Out.fold x.sum else Out.done
-              (setD c t { x with cur := none, lbuf := none }, evs ++ [.ret out], true)
-            | _ =>
-              let (vevs, visits', sum', panicked) := visitAll s withIdx panicAt pairs x.visits x.sum []
-              match panicked with
-              | none =>
-                let lbuf' := x.lbuf.map fun l => (List.replicate pairs.length none) ++ l.drop pairs.length
-                (setD { c with mv := c.mv ++ pairs.map (·.2) } t { x with visits := visits', sum := sum', lbuf := lbuf' },
-                  evs ++ vevs, true)
-              | some restLen =>
-                let nv := pairs.length - restLen
-                let taken := (pairs.take nv).map (·.2)
-                let rest := (pairs.drop nv).map (·.2)
-                (setD { c with mv := c.mv ++ taken, dr := c.dr ++ (if s.owning then rest else []) } t
-                    { x with dead := true, lbuf := none },
-                  evs ++ vevs ++ dropEvs s rest ++ [.panic "closure"], true)
+      | none => (setD r.1 t r.2.1, r.2.2.1, true)
+      | some o => retFx s t r.1 r.2.1 op o r.2.2.1
 
 /-- One step of thread `t`: new configuration and the events it logs. -/
 def step (s : ISrc) (t : Nat) (c : FCfg) : FCfg × List Ev :=
